@@ -403,7 +403,7 @@ func (wl *Wallet) build(stepIdx int, st *Step) *BuiltOp {
 	// ---- honest request as generic JSON (the raw builder's output, also the base for fault injection)
 	rb := &rawBuild{w: w, kind: kind, alg: alg, suffix: suffix, patches: patches, updCommit: tr.UpdCommit,
 		recCommit: tr.RecCommit, origin: origin, hasOrigin: hasOrigin, entityType: entityType,
-		from: from, until: until, sign: sign, kid: st.Kid, reveal: op.RevealValue, extra: st.SignedExtra}
+		from: from, until: until, sign: sign, kid: st.Kid, reveal: op.RevealValue, extra: st.SignedExtra, keyExtras: st.KeyExtras}
 	if sign.Set {
 		rb.header = map[string]any{"alg": w.Pool.Get(sign.Idx).Type.Alg()}
 		if st.Kid != "" {
